@@ -635,6 +635,23 @@ fn gen_case(seed: u64, shard: usize, run: usize, t: &Tier, tally: &mut Tally) ->
         };
         tally.bump(&format!("history_sets_sampled_after_a_relative_kind_{kind}"), 1);
         (from, to, Some((pf, pt)))
+    } else if run % 13 == 6 {
+        // a FAILED call just before, on the same thread: a set the sampler cannot serve (an
+        // empty range on one joint, or a NaN limit) makes it panic, as it may; the panic is the
+        // caller's to contain, and a valid set sampled afterwards must be served as ever (a lock
+        // left poisoned, a half-updated memo or a counter left mid-way by the unwinding is not)
+        let mut b = Rng::derive(seed, shard as u64, run as u64, "c18.failed-call");
+        let j = b.below(6);
+        let (mut pf, mut pt) = (from, to);
+        if b.chance(0.5) {
+            pt[j] = pf[j];
+        } else if b.chance(0.5) {
+            pf[j] = f64::NAN;
+        } else {
+            pt[j] = f64::NAN;
+        }
+        tally.bump("history_sets_sampled_after_a_call_that_failed", 1);
+        (from, to, Some((pf, pt)))
     } else {
         (from, to, None)
     };
